@@ -35,7 +35,7 @@ func (w *World) materialise(ka *keyAllocator) error {
 	nb, na := Epoch.Add(-365*24*time.Hour), Epoch.Add(20*365*24*time.Hour)
 	for pos := n - 1; pos >= 0; pos-- {
 		cp := w.Certs[pos]
-		if w.CloneOf != nil {
+		if w.CloneOf != nil && !(w.SiblingLeaf && pos == 0) {
 			// a later validation of the same chain: same certificates
 			cp.C = w.CloneOf.Certs[pos].C
 			continue
@@ -75,6 +75,18 @@ func (w *World) materialise(ka *keyAllocator) error {
 		}
 		if w.TSADefect != TDNone {
 			w.applyTSADefect(spec, pos, n, ka)
+		}
+		if w.ChainDefect == ChainTSALeafEKU && pos == 0 {
+			spec.TSALeaf = false
+			switch w.EKUVariant {
+			case 0:
+				spec.RawEKU, spec.RawEKUCrit = []asn1.ObjectIdentifier{{1, 3, 6, 1, 4, 1, 99999, 3, 1}}, true
+			case 1:
+			case 2:
+				spec.RawEKU, spec.RawEKUCrit = []asn1.ObjectIdentifier{oidEKUTimeStamping, oidEKUCodeSigning}, true
+			case 3:
+				spec.EKU = []x509.ExtKeyUsage{x509.ExtKeyUsageTimeStamping}
+			}
 		}
 		var parent *Cert
 		if pos < n-1 {
@@ -487,10 +499,16 @@ func (w *World) buildCRL(cp *CertPlan, src *CRLSrc, plan *CRLPlan, isDelta bool,
 	}
 	for i, e := range plan.Entries {
 		es := CRLEntrySpec{Match: e.Match, Reason: e.Reason, RevTime: revTime(e.RevIdx), InvKind: e.InvKind, CriticalExt: e.Crit, CritFirst: e.CritFirst}
+		ref := cp.Serial
+		if w.SiblingLeaf && cp.Pos == 0 {
+			// the CA's lists do not change because another of its
+			// certificates is being checked
+			ref = w.CloneOf.Certs[0].Serial
+		}
 		if e.Match {
-			es.Serial = cp.Serial
+			es.Serial = ref
 		} else {
-			es.Serial = new(big.Int).Add(cp.Serial, big.NewInt(int64(5000+i)))
+			es.Serial = new(big.Int).Add(ref, big.NewInt(int64(5000+i)))
 		}
 		if e.InvKind != InvNone {
 			es.Invalidity = w.invalidityFor(e.InvKind)
